@@ -239,6 +239,46 @@ fn inputs(ctx: &mut Ctx) -> Vec<(String, Vec<u8>)> {
             v.push(("tower-compressed".into(), b));
         }
     }
+    // nesting through the fields that are terms but not containers: the node of a pid / port / reference, the module and
+    // function of an export, the module / index / uniq / creator pid of a fun. Never a valid term (the field must be an atom,
+    // an integer, a pid), but the decoders only find that out after the recursive call has returned, so an input of one
+    // repeated tag is a recursion as deep as it is long (seeded change S62: the zero-copy decoder derived its depth from the
+    // error path, which these call sites do not extend).
+    let mut fun_head = vec![112u8, 0, 0, 0, 0, 1];
+    fun_head.extend_from_slice(&[7u8; 16]);
+    fun_head.extend_from_slice(&[0, 0, 0, 1, 0, 0, 0, 0]);
+    let mut fun_to_index = fun_head.clone();
+    fun_to_index.extend_from_slice(&[119, 1, 109]);
+    let mut fun_to_uniq = fun_to_index.clone();
+    fun_to_uniq.extend_from_slice(&[97, 1]);
+    let mut fun_to_pid = fun_to_uniq.clone();
+    fun_to_pid.extend_from_slice(&[97, 2]);
+    let field_units: Vec<(&str, Vec<u8>)> = vec![
+        ("new-pid-node", vec![88]), ("pid-node", vec![103]), ("new-port-node", vec![89]), ("port-node", vec![102]),
+        ("v4-port-node", vec![120]), ("ref-node", vec![101]), ("new-ref-node", vec![114, 0, 1]), ("newer-ref-node", vec![90, 0, 1]),
+        ("export-module", vec![113]), ("export-function", vec![113, 119, 1, 109]), ("export-arity", vec![113, 119, 1, 109, 119, 1, 102]),
+        ("fun-module", fun_head.clone()), ("fun-index", fun_to_index), ("fun-uniq", fun_to_uniq), ("fun-pid", fun_to_pid),
+    ];
+    for (name, unit) in &field_units {
+        let ds: &[usize] = if ctx.thorough { &[255, 256, 257, 258, 600, 100_000] } else { &[256, 257, 100_000] };
+        for &d in ds {
+            if unit.len() * d <= 4_000_000 {
+                v.push((format!("tower-field-{}", name), tower(unit, &[106], &[], d)));
+            }
+        }
+    }
+    // every tag byte the decoders dispatch on (every byte value in the thorough tier), repeated
+    let tags: Vec<u8> = if ctx.thorough { (0u8..=255).collect() } else {
+        vec![70, 77, 80, 82, 88, 89, 90, 97, 98, 99, 100, 101, 102, 103, 104, 105, 106, 107, 108, 109, 110, 111, 112, 113, 114, 115, 116, 118, 119, 120, 121]
+    };
+    for t in tags {
+        let ds: &[usize] = if ctx.thorough { &[300, 100_000] } else { &[100_000] };
+        for &d in ds {
+            let mut b = vec![131u8];
+            b.extend(std::iter::repeat(t).take(d));
+            v.push(("repeat-tag".into(), b));
+        }
+    }
     // compressed sections nested directly in each other, nothing else: around the nesting limit (tied to the model
     // through a chain oracle table) and far beyond it (a recursion that is not counted overflows the stack)
     for d in [250usize, 255, 256, 257, 258, 300] {
